@@ -131,6 +131,27 @@ _order = ["sql", "typing"] if (_seed.isdigit() and int(_seed) % 2 == 0) else ["t
 _r = quiet(_imports, _order)
 out["imports_by_resolver_order"] = _r if isinstance(_r, str) else {k: _r[k] for k in sorted(_r)}
 
+# T8: a column typed Union[int, <unknown name>] emitted as SQLAlchemy, in half of the processes AFTER a class with a plain column of that
+# unknown type was emitted (the type tables are module-level dicts): the text must not depend on that history
+def _sql_union():
+    from collections import OrderedDict
+    import cdd.sqlalchemy.emit
+    mk = lambda nm, typ: {"name": nm, "doc": "A %s" % nm, "returns": None,
+                          "params": OrderedDict((("key", {"typ": "int", "doc": "[PK] the key"}), ("billing", {"typ": typ, "doc": "where to bill"})))}
+    if _seed.isdigit() and int(_seed) % 2 == 0:
+        cdd.sqlalchemy.emit.sqlalchemy(mk("Order", "Address"), class_name="Order")
+    texts = [to_code(cdd.sqlalchemy.emit.sqlalchemy(mk("Invoice", "Union[int, Address]"), class_name="Invoice")) for _ in range(2)]
+    return texts
+out["sql_union_after_unknown_type"] = quiet(_sql_union)
+
+# T9: merging several __all__ lists whose names differ only in case / punctuation (the merged list is sorted out of a frozenset)
+def _merge_all():
+    from cdd.shared.ast_utils import merge_assignment_lists
+    m = ast.parse("__all__ = ['config', 'Config', 'CONFIG', 'a_b']\n__all__ = ['Config', 'conFig', 'A_b', 'a_B', 'zeta']\n")
+    merge_assignment_lists(m, "__all__")
+    return to_code(m)
+out["merged_all_lists"] = quiet(_merge_all)
+
 # T6: gen_routes / upsert_routes into an existing routes file that has none of the requested routes yet
 d = tempfile.mkdtemp(prefix="verif-c10-")
 try:
